@@ -781,8 +781,8 @@ EXPORT errno_t _wcsnorm_reorder_s_chk(wchar_t *restrict dest, rsize_t dmax,
         cur_cc = _combin_class(cp);
         if (cur_cc != 0) {
             if (seq_max < cc_pos + 1) {         /* extend if need */
-                seq_max = cc_pos + CC_SEQ_STEP; /* new size */
                 UNWIF_cc *seq_new;
+                seq_max = cc_pos + CC_SEQ_STEP; /* new size */
                 if (CC_SEQ_SIZE == cc_pos) {    /* seq_ary full */
                     seq_new = (UNWIF_cc *)malloc(seq_max * sizeof(UNWIF_cc));
                     if (seq_new)
@@ -1021,8 +1021,8 @@ EXPORT errno_t _wcsnorm_compose_s_chk(wchar_t *restrict dest, rsize_t dmax,
                 pre_cc = cur_cc;
                 if (cur_cc != 0 || !(p < e)) {
                     if (seq_max < cc_pos + 1) {         /* extend if need */
-                        seq_max = cc_pos + CC_SEQ_STEP; /* new size */
                         uint32_t *seq_new;
+                        seq_max = cc_pos + CC_SEQ_STEP; /* new size */
                         if (CC_SEQ_SIZE == cc_pos) {    /* seq_ary full */
                             seq_new =
                                 (uint32_t *)malloc(seq_max * sizeof(uint32_t));
